@@ -40,7 +40,8 @@ PATTERNS = {
     "partial": {"sa.t1": ["id", "a", "b"], "sa.t2": ["id", "a", "c"], "sb.t3": ["id", "d"], "sb.t1": ["id", "b", "e"]},
     "spelled": {"sa.t1": ["ID", "A", "b"], "sa.t2": ["Id", "a", "C"], "sb.t3": ["id", "D"], "sb.t1": ["ID", "B", "e"]},
 }
-TARGET_COLS = ["p", "q", "r", "s"]
+# NOT in alphabetical order: the positions come from the ORDER the provider lists the columns in
+TARGET_COLS = ["q9", "p", "zeta", "b0"]
 
 
 def norm(c):
@@ -139,9 +140,10 @@ def shapes(pat):
     q3n = G.select([G.item(G.col(c)) for c in srcnames], [G.from_expr(T(t1))])
     yield dict(name="insert/no-list/unaliased", ast=ins(q3n), scope=[t1], target=tg, target_cols=TARGET_COLS[:3],
                oracle=("positions", t1, srcnames, srcnames))
-    for lname, lst, tc in (("full-permuted", ["r", "p", "q"], TARGET_COLS[:3]), ("strict-subset", ["q", "p", "r"][:3], TARGET_COLS[:4]),
-                           ("subset2", ["p", "q"], TARGET_COLS[:3]), ("not-in-metadata", ["m", "n", "o"], TARGET_COLS[:3]),
-                           ("superset-names", ["p", "q", "zz"], TARGET_COLS[:2])):
+    c0, c1, c2, c3 = TARGET_COLS
+    for lname, lst, tc in (("full-permuted", [c2, c0, c1], TARGET_COLS[:3]), ("strict-subset", [c1, c0, c2], TARGET_COLS[:4]),
+                           ("subset2", [c0, c1], TARGET_COLS[:3]), ("not-in-metadata", ["m", "n", "o"], TARGET_COLS[:3]),
+                           ("superset-names", [c0, c1, "zz"], TARGET_COLS[:2])):
         qq = q3 if len(lst) == 3 else G.select(src[:2], [G.from_expr(T(t1))])
         yield dict(name=f"insert/list/{lname}", ast=ins(qq, tg, lst), scope=[t1], target=tg, target_cols=tc,
                    oracle=("list", t1, srcnames[:len(lst)], lst))
@@ -150,8 +152,8 @@ def shapes(pat):
     un = G.setop((u1, False), [("union all", (u2, False))])
     yield dict(name="union/no-list", ast=ins(un), scope=[t1, t2], target=tg, target_cols=TARGET_COLS[:2],
                oracle=("positions-union", [(t1, cols[t1][:2]), (t2, cols[t2][:2])], cols[t1][:2]))
-    yield dict(name="union/list", ast=ins(un, tg, ["q", "p"]), scope=[t1, t2], target=tg, target_cols=TARGET_COLS[:3],
-               oracle=("list-union", [(t1, cols[t1][:2]), (t2, cols[t2][:2])], ["q", "p"]))
+    yield dict(name="union/list", ast=ins(un, tg, [TARGET_COLS[1], TARGET_COLS[0]]), scope=[t1, t2], target=tg, target_cols=TARGET_COLS[:3],
+               oracle=("list-union", [(t1, cols[t1][:2]), (t2, cols[t2][:2])], [TARGET_COLS[1], TARGET_COLS[0]]))
     # the wildcard against positional naming (finding D46-star-vs-positions): star + known target, star in a later union branch, star + explicit list
     q = G.select([G.item(["star", []])], [G.from_expr(T(t1))])
     yield dict(name="star-vs-positions/known-target", ast=ins(q), scope=[t1], target=tg, target_cols=TARGET_COLS[:3], oracle=("star-positions", t1))
